@@ -919,6 +919,21 @@ class HTTPResponse(BaseHTTPResponse):
                     # raised during streaming, so all calls with incorrect
                     # Content-Length are caught.
                     raise IncompleteRead(self._fp_bytes_read, self.length_remaining)
+            elif (
+                amt is None
+                and not read1
+                and not fp_closed
+                and self.enforce_content_length
+                and self.length_remaining is not None
+                and len(data) < self.length_remaining
+            ):
+                # A read of the whole body came back short. http.client notices
+                # that itself only when it is asked for everything in one call,
+                # which `_fp_read` avoids for bodies that do not fit a C int.
+                self._fp.close()
+                raise IncompleteRead(
+                    self._fp_bytes_read + len(data), self.length_remaining - len(data)
+                )
             elif read1 and (
                 (amt != 0 and not data) or self.length_remaining == len(data)
             ):
